@@ -81,7 +81,7 @@ class MethodCtx:
     def __init__(self, proj, func, mutable_attrs):
         self.p = proj
         self.f = func
-        self.sn = func.params[0] if func.params and func.cls is not None else None
+        self.sn = func.params[0] if func.has_self else None
         self.params = set(func.params[1:] if self.sn else func.params)
         a = func.node.args
         for x in a.kwonlyargs:
